@@ -93,6 +93,16 @@ static void c06_case(int packed, int len, int idi)
     }
     memset(msg + hdr, fillb, (size_t)(len + pad + tail));
     for (int i = 0; i < len; i++) src[i] = c06_pay(pat, i, len);
+    if (prior == 5) {
+        /* the header the builder is about to produce is already there (cyclic traffic re-using its buffer), the pad bytes are dirty */
+        memset(msg, 0x00, (size_t)hdr);
+        rset(msg, fld(fmt, "acf_msg_type"), brief ? 2 : 1);
+        rset(msg, fld(fmt, "acf_msg_length"), (uint64_t)(total / 4));
+        rset(msg, fld(fmt, "pad"), (uint64_t)pad);
+        rset(msg, fld(fmt, "eff"), id > 0x7FF);
+        rset(msg, fld(fmt, "fdf"), (uint64_t)variant);
+        rset(msg, fld(fmt, "can_identifier"), id);
+    }
     memcpy(exp, pre, (size_t)(16 + total + tail));
     uint8_t* em = exp + 16;
     if (len) memcpy(em + hdr, src, (size_t)len);
@@ -145,7 +155,7 @@ static void suite_c06(void)
 {
     int maxlen_full = g_thorough ? 2028 : 64, maxlen_brief = g_thorough ? 2036 : 64;
     for (int packed = 0; packed < 2048; packed++) {
-        int prior = (packed >> 6) & 7; if (prior > 4) continue;
+        int prior = (packed >> 6) & 7; if (prior > 5) continue;
         if ((packed >> 10) && ((packed & 1) || !((packed >> 1) & 1))) continue;       /* the in-place variant exists for the full format's step mode only */
         if (!my_unit()) continue;
         hs_reset();
@@ -436,6 +446,7 @@ int main(int argc, char** argv)
 {
     const char* suite = "", *csarg = NULL;
     for (int i = 1; i < argc; i++) {
+        if (!strcmp(argv[i], "--callmode")) { w_set_callmode((uint64_t)atoi(argv[++i])); continue; }
         if (!strcmp(argv[i], "--worldinfo")) { printf("model=%llu big=%llu\n", (unsigned long long)w_world_model(), (unsigned long long)w_world_id()); return 0; }
         if (!strcmp(argv[i], "--suite")) suite = argv[++i];
         else if (!strcmp(argv[i], "--tier")) { i++; g_thorough = !strcmp(argv[i], "thorough"); g_lite = !strcmp(argv[i], "lite"); }
